@@ -66,6 +66,7 @@ PeerAS == IF L.ibgp THEN LocalAS ELSE 65001
 O(as, as4, id, h, role, ver) == [as |-> as, as4 |-> as4, id |-> id, hold |-> h, role |-> role, version |-> ver]
 OpenDef == [ ok        |-> O("cfg", "cfg", "ok", 90, "none", 4),
              okNoAS4   |-> O("cfg", "none", "ok", 90, "none", 4),
+             okOddAP   |-> O("cfg", "cfg", "ok", 90, "none", 4),                 \* as ok, plus add-path tuples for families the peer is not configured for
              okNoAP    |-> O("cfg", "cfg", "ok", 90, "none", 4),                 \* as ok, but without the add-path capability (see NoAP)
              okTrans   |-> O("trans", "cfg", "ok", 90, "none", 4),
              hold0     |-> O("cfg", "cfg", "ok", 0, "none", 4),
@@ -112,6 +113,13 @@ UpdDef == [ annA      |-> U(TRUE, {N("a", 0)}, {}, {}),
             annAB     |-> U(TRUE, {N("a", 0), N("b", 0)}, {}, {}),
             annC6     |-> U(TRUE, {N("c6", 0)}, {}, {}),                       \* IPv6 prefix in MP_REACH_NLRI
             annLoop   |-> U(TRUE, {N("l", 0)}, {}, {}),                        \* prefix "l": its AS_PATH contains the local AS (stored, never eligible)
+            \* well-formed UPDATEs with further attributes: AS4_AGGREGATOR, AS4_PATH, AGGREGATOR + ATOMIC_AGGREGATE, an unknown transitive
+            \* attribute, communities and large communities
+            annAas4aggr |-> U(TRUE, {N("a", 0)}, {}, {}),
+            annAas4path |-> U(TRUE, {N("a", 0)}, {}, {}),
+            annAaggr    |-> U(TRUE, {N("a", 0)}, {}, {}),
+            annAunk     |-> U(TRUE, {N("a", 0)}, {}, {}),
+            annAcomm    |-> U(TRUE, {N("a", 0)}, {}, {}),
             wdA       |-> U(TRUE, {}, {N("a", 0)}, {}),
             wdAannB   |-> U(TRUE, {N("b", 0)}, {N("a", 0)}, {}),
             wdC6      |-> U(TRUE, {}, {N("c6", 0)}, {}),
